@@ -321,6 +321,17 @@ func c09Seq(c *sim.Case) {
 	if sim.Weighted(c, "idle-timeout", 2, 1) == 1 {
 		// sessions that are kept alive over several idle periods (advances by fractions of the limit)
 		ho.o.Idle = []time.Duration{30 * time.Second, 5 * time.Minute, 30 * time.Minute}[sim.Pick(c, "idle", 3)]
+		if sim.Bool(c, "long-lived-prefix") {
+			// the service has been up for a while, the session is kept alive over more than one idle period, then
+			// the user logs out
+			b := sim.Pick(c, "llp.b", 2)
+			pre := []op{{K: "advance", B: b, Rel: "frac", D: time.Duration(3 + sim.Pick(c, "llp.up", 7))}, {K: "login", B: b, Target: "/a"}}
+			for i, n := 0, 1+sim.Pick(c, "llp.uses", 5); i < n; i++ {
+				pre = append(pre, op{K: "advance", B: b, Rel: "frac", D: time.Duration(1 + sim.Pick(c, "llp.gap", 8))}, op{K: "nav", B: b, Target: "/a"})
+			}
+			pre = append(pre, op{K: "logout", B: b}, op{K: "nav", B: b, Target: "/a"})
+			ops = append(pre, ops...)
+		}
 	}
 	var mon *c09Mon
 	h1, h2 := runWithFaults(c, ho, ops, func() []monitor {
